@@ -131,7 +131,13 @@ def handle (st : State) (cmd : String) (inp obs : List String) : State × String
       match date3? r2 with
       | some (b, []) =>
         let m := showBits [a.lt b, a.le b, a.gt b, a.ge b, decide (a = b), decide (a ≠ b)]
-        (st, if obs = [m] then "ok" else s!"MISMATCH date.cmp model={m}")
+        -- the six operators are the lexicographic order on (year, month, day) (theorem C07_order): the
+        -- scheduler's loop, the date lookup and the step containment tests all rest on them
+        let lt : Bool := decide (a.y < b.y) || (decide (a.y = b.y) && (decide (a.m < b.m) || (decide (a.m = b.m) && decide (a.d < b.d))))
+        let eq : Bool := decide (a.y = b.y) && decide (a.m = b.m) && decide (a.d = b.d)
+        let spec := showBits [lt, lt || eq, !(lt || eq), !lt, eq, !eq]
+        (st, if obs ≠ [spec] then s!"PROPFAIL C07 order_operators observed={obs} lexicographic={spec}"
+             else if obs = [m] then "ok" else s!"MISMATCH date.cmp model={m}")
       | _ => (st, "BADLINE")
     | none => (st, "BADLINE")
   | "date.parse", rest =>
